@@ -217,7 +217,7 @@ var (
 func report(key, what string, c any) {
 	// one mismatch line per key and behaviour class is enough; keep the first few of each key
 	n, _ := keysSeen.LoadOrStore(key, new(int64))
-	if atomic.AddInt64(n.(*int64), 1) <= 3 {
+	if atomic.AddInt64(n.(*int64), 1) <= 1 {
 		mbt.Mismatch(key, what, c)
 	}
 }
@@ -234,7 +234,7 @@ func eqInts(a, b []int) bool {
 	return true
 }
 
-func replay(beh []mbt.Step, bi int, seed int64, allValues bool) (ok bool) {
+func replay(beh []mbt.Step, bi int, seed int64, allValues bool, lastOnly bool) (ok bool) {
 	dir, err := os.MkdirTemp("", "wal")
 	if err != nil {
 		mbt.Die("%v", err)
@@ -303,6 +303,9 @@ func replay(beh []mbt.Step, bi int, seed int64, allValues bool) (ok bool) {
 					mbt.Die("truncate: %v", err)
 				}
 			} else if kk > len(starts) {
+				if lastOnly {
+					return false // an earlier step already deviates; its own (shorter) behaviour reports it
+				}
 				mbt.Die("Crash k=%d but head has %d lines on disk", kk, len(starts))
 			}
 			old.close(true)
@@ -319,6 +322,9 @@ func replay(beh []mbt.Step, bi int, seed int64, allValues bool) (ok bool) {
 			starts, ends := lineStarts(bz)
 			i := s.Int("i") - 1
 			if i >= len(starts) {
+				if lastOnly {
+					return false
+				}
 				mbt.Die("Corrupt line %d of %d", i, len(starts))
 			}
 			ln := ends[i] - starts[i] - 1
@@ -338,9 +344,14 @@ func replay(beh []mbt.Step, bi int, seed int64, allValues bool) (ok bool) {
 			report("C38:"+s.Act()+":error", fmt.Sprintf("step %d %s: %v", k, mbt.JS(s), opErr), cs)
 			return false
 		}
-		// ---- projection: read everything, search every height in both modes
+		// ---- projection: read everything, search every height in both modes (edge mode: every
+		// edge is the last step of exactly one behaviour, so comparing there covers each once)
 		exp := s["st"].(map[string]any)
 		expRead := mbt.Ints(exp["read"])
+		if lastOnly && k < len(beh)-1 {
+			lastRead = expRead
+			continue
+		}
 		got := m.readAll()
 		g = m.w.Group()
 		hadOther := false
@@ -418,7 +429,7 @@ func replay(beh []mbt.Step, bi int, seed int64, allValues bool) (ok bool) {
 		if !truncProbes(files, lastRead, cs) {
 			ok = false
 		}
-		if !corruptProbes(files, lastRead, cs, allValues) {
+		if !corruptProbes(files, lastRead, cs, allValues && atomic.LoadInt64(&st.layouts) <= 300) {
 			ok = false
 		}
 		if !groupTruncProbes(m, files, lastRead, cs) {
@@ -648,7 +659,7 @@ func main() {
 		go func(w int) {
 			defer wg.Done()
 			for i := w; i < len(behs); i += nw {
-				if replay(behs[i], i, f.Seed, allValues) {
+				if replay(behs[i], i, f.Seed, allValues, f.Mode == "last") {
 					atomic.AddInt64(&st.okc, 1)
 				}
 			}
